@@ -103,7 +103,7 @@ inline void release(cell_ptr& c) { if (c) { c->clear_data(); c.reset(); } }
 struct Tri { unsigned a, b, c; };
 inline std::vector<Tri> live_triangles(const cell& c) { std::vector<Tri> t; for (const face& f : c.face_lst_) if (f.is_used_) t.push_back({f.n1_id_, f.n2_id_, f.n3_id_}); return t; }
 
-struct OracleOpts { bool check_bookkeeping = true; bool check_cached_geometry = true; bool check_volume = true; bool check_owner = true; bool check_genus = true; };
+struct OracleOpts { bool flat_is_error = true; bool check_bookkeeping = true; bool check_cached_geometry = true; bool check_volume = true; bool check_owner = true; bool check_genus = true; };
 
 // Returns "" if everything holds, otherwise "<clause>: detail".  Uses only the list of live triangles and node slots for
 // the topological part; then compares the cell's own bookkeeping with the recomputation.
@@ -143,7 +143,12 @@ inline std::string oracle_mesh(const cell& c, const OracleOpts& o = OracleOpts()
         for (const face& f : c.face_lst_) { if (!f.is_used_) continue; const vec3 &A = c.node_lst_[f.n1_id_].pos_, &B = c.node_lst_[f.n2_id_].pos_, &C = c.node_lst_[f.n3_id_].pos_;
             long double ax = A.dx() - cx, ay = A.dy() - cy, az = A.dz() - cz, bx = B.dx() - cx, by = B.dy() - cy, bz = B.dz() - cz, gx = C.dx() - cx, gy = C.dy() - cy, gz = C.dz() - cz;
             long double d = ax * (by * gz - bz * gy) - ay * (bx * gz - bz * gx) + az * (bx * gy - by * gx); vol += d; scale += fabsl(d); }
-        if (!(vol > 1e-12L * scale) ) { e << "surface-not-oriented-outward: signed volume " << (double)(vol / 6) << " (scale " << (double)(scale / 6) << ")"; return e.str(); } }
+        // A surface that has been flattened (all nodes coplanar to rounding: no enclosed volume at all) has no inside: its
+        // orientation is undefined, which is a geometric degeneracy of the node positions, not an orientation error.  It is
+        // reported separately ("degenerate-flat") so that callers can count it and stop expanding; everything else must be positive.
+        long double ext = 0; for (unsigned i = 0; i < NS; i++) if (c.node_lst_[i].is_used_) { ext = std::max(ext, fabsl(c.node_lst_[i].pos_.dx() - cx)); ext = std::max(ext, fabsl(c.node_lst_[i].pos_.dy() - cy)); ext = std::max(ext, fabsl(c.node_lst_[i].pos_.dz() - cz)); }
+        if (scale <= 1e-9L * ext * ext * ext) { if (o.flat_is_error) { e << "degenerate-flat: no enclosed volume (sum of |tetrahedra| " << (double)(scale / 6) << ", extent " << (double)ext << ")"; return e.str(); } }
+        else if (!(vol > 1e-12L * scale) ) { e << "surface-not-oriented-outward: signed volume " << (double)(vol / 6) << " (scale " << (double)(scale / 6) << ")"; return e.str(); } }
     if (!o.check_bookkeeping) return "";
     // ---- bookkeeping versus recomputation
     if (c.get_nb_of_nodes() != nlive_n) { e << "node-count-bookkeeping: get_nb_of_nodes=" << c.get_nb_of_nodes() << " live=" << nlive_n; return e.str(); }
@@ -161,11 +166,12 @@ inline std::string oracle_mesh(const cell& c, const OracleOpts& o = OracleOpts()
         if (!ed.f1_id_ || !ed.f2_id_) { e << "edge-set-edge-not-manifold: (" << ed.n1_id_ << "," << ed.n2_id_ << ")"; return e.str(); }
         unsigned f1 = *ed.f1_id_, f2 = *ed.f2_id_; auto& fs = it->second; if (!((f1 == fs[0] && f2 == fs[1]) || (f1 == fs[1] && f2 == fs[0]))) { e << "edge-set-adjacency-differs: edge (" << ed.n1_id_ << "," << ed.n2_id_ << ") stores faces (" << f1 << "," << f2 << ") recomputed (" << fs[0] << "," << fs[1] << ")"; return e.str(); } }
     if (o.check_owner) for (unsigned i = 0; i < FS; i++) if (c.face_lst_[i].is_used_ && c.face_lst_[i].owner_cell_.get() != &c) { e << "face-owner-is-not-its-cell: face " << i; return e.str(); }
+    double mean_area = 0; if (o.check_cached_geometry) { for (const face& f : c.face_lst_) if (f.is_used_) { const vec3 &A = c.node_lst_[f.n1_id_].pos_, &B = c.node_lst_[f.n2_id_].pos_, &C = c.node_lst_[f.n3_id_].pos_; mean_area += 0.5 * (B - A).cross(C - A).norm(); } mean_area /= nlive_f; }
     if (o.check_cached_geometry) for (unsigned i = 0; i < FS; i++) { const face& f = c.face_lst_[i]; if (!f.is_used_) continue;
         const vec3 &A = c.node_lst_[f.n1_id_].pos_, &B = c.node_lst_[f.n2_id_].pos_, &C = c.node_lst_[f.n3_id_].pos_; vec3 n = (B - A).cross(C - A); double nn = n.norm(); double area = 0.5 * nn;
         double dotp = n.dot(f.normal_);
-        if (nn > 0 && !(dotp > 0)) { e << "cached-normal-opposes-winding: face " << i << " (" << f.n1_id_ << "," << f.n2_id_ << "," << f.n3_id_ << ") dot=" << dotp; return e.str(); }
-        if (std::fabs(f.area_ - area) > 1e-9 * std::max(1e-300, std::max(area, std::fabs(f.area_)))) { e << "cached-area-stale: face " << i << " cached " << f.area_ << " recomputed " << area; return e.str(); } }
+        if (area > 1e-9 * mean_area && !(dotp > 0)) { e << "cached-normal-opposes-winding: face " << i << " (" << f.n1_id_ << "," << f.n2_id_ << "," << f.n3_id_ << ") dot=" << dotp; return e.str(); }
+        if (std::fabs(f.area_ - area) > 1e-9 * std::max(area, std::fabs(f.area_)) + 1e-12 * mean_area) { e << "cached-area-stale: face " << i << " cached " << f.area_ << " recomputed " << area; return e.str(); } }
     return "";
 }
 using vf::clause_of;
